@@ -520,7 +520,7 @@ func c01Sequence(cs *drv.Case, vals []cval, sched int, withData bool) {
 	sink := &doubles.Sink{}
 	dw := bufiox.NewDefaultWriter(sink)
 	bw := thrift.NewBufferWriter(dw)
-	var target, acc []byte
+	var target []byte
 	yw := bufiox.NewBytesWriter(&target)
 	bw2 := thrift.NewBufferWriter(yw)
 	for i, v := range vals {
@@ -536,10 +536,8 @@ func c01Sequence(cs *drv.Case, vals []cval, sched int, withData bool) {
 			dw.Flush()
 		}
 		if cs.R.Intn(9) == 0 {
-			// a bytes writer reused across flushes publishes what was written since the previous Flush
+			// a bytes writer flushed more than once: the target keeps everything flushed so far
 			yw.Flush()
-			acc = append(acc, target...)
-			target = nil
 		}
 	}
 	if err := dw.Flush(); err != nil {
@@ -547,7 +545,6 @@ func c01Sequence(cs *drv.Case, vals []cval, sched int, withData bool) {
 		return
 	}
 	yw.Flush()
-	target = append(acc, target...)
 	bw.Recycle()
 	bw2.Recycle()
 	if got := sink.All(); !bytes.Equal(got, stream) {
